@@ -249,7 +249,14 @@ def register(kernel):
            coq_params=[("am", "(@brbm R)"), ("ph", "(@brbm R)"), ("v", "bits")], result="C",
            thm_params=[("am", "(@brbm R)"), ("ph", "(@brbm R)"), ("v", "bits")], gen_args="am ph v",
            model="cplx_psi ROps am ph v", model_name="States.cplx_psi (psi = amplitude (cos, sin) phase, for the complex state's phase)",
-           tactic=VT % "cplx_psi", **wf)
+           tactic=VT % "cplx_psi", cor_imports=["Born"],
+           corollaries=[("born_rule_for_the_translated_psi",
+                         "forall (am ph : @brbm R) (v : bits), let z := GEN am ph v in (fst z * fst z + snd z * snd z = probability ROps am v 1)%R",
+                         "intros am ph v; rewrite TIE; exact (cplx_psi_sq am ph v)"),
+                        ("modulus_of_the_translated_psi_ignores_the_phase_network",
+                         "forall (am ph ph' : @brbm R) (v : bits), let z := GEN am ph v in let z' := GEN am ph' v in "
+                         "(fst z * fst z + snd z * snd z = fst z' * fst z' + snd z' * snd z')%R",
+                         "intros am ph ph' v; rewrite !TIE; exact (cplx_modulus_ignores_phase am ph ph' v)")], **wf)
     kernel("C01", name="probability", file="qucumber/nn_states/neural_state.py", func="NeuralStateBase.probability",
            inputs=[("v", "v", "BV"), ("Z", "Zn", F)],
            atoms=[("self.rbm_am.effective_energy($v)", "(b_eff_energy ROps am $v)", F)],
@@ -328,3 +335,30 @@ def register(kernel):
            gen_args="", model="", model_name="Gibbs.p_gibbs_steps (through GibbsSkel.run_gibbs)",
            imports=["Bits", "Rbm", "Gibbs", "GibbsSkel"], cor_imports=["GibbsSkelT"],
            tactic="apply skeleton_p_is_sampler; vm_compute; reflexivity")
+
+
+def register_corollaries(cor):
+    """property-level facts stated over SEVERAL generated kernels at once (compiled with the combined generated file)"""
+    # C05: the Markov kernel assembled from the TRANSLATED conditionals satisfies detailed balance with respect to the weight
+    # exp(-E) of the TRANSLATED effective energy, for every network and every pair of visible states
+    cor("C05", "detailed_balance_of_the_translated_binary_sampler",
+        "forall nv nh (r : @brbm R), b_shape nv nh r -> forall s s', length s = nv -> length s' = nv -> "
+        "let K := fun a b => sum ROps (map (fun h => (bern_prod ROps (gen_binary_prob_h_given_v r a) h * bern_prod ROps (gen_binary_prob_v_given_h r h) b)%R) (all_bits (length (bc r)))) in "
+        "(exp (- gen_binary_effective_energy r s) * K s s' = exp (- gen_binary_effective_energy r s') * K s' s)%R",
+        "intros nv nh r H s s' Hs Hs'; cbv zeta; rewrite !tie_binary_effective_energy; "
+        "assert (E : forall a b, sum ROps (map (fun h => (bern_prod ROps (gen_binary_prob_h_given_v r a) h * bern_prod ROps (gen_binary_prob_v_given_h r h) b)%R) (all_bits (length (bc r)))) = b_kernel ROps r a b) "
+        "by (intros a b; unfold b_kernel; f_equal; apply map_ext; intros h; unfold b_kernel_term; rewrite tie_binary_prob_h_given_v, tie_binary_prob_v_given_h; reflexivity); "
+        "rewrite !E; exact (detailed_balance_binary nv nh r H s s' Hs Hs')",
+        imports=["Gibbs", "GibbsT"])
+    cor("C05", "detailed_balance_of_the_translated_purification_sampler",
+        "forall nv nh na (r : @prbm R), p_shape nv nh na r -> forall s s', length s = nv -> length s' = nv -> "
+        "let K := fun x y => sum ROps (map (fun h => sum ROps (map (fun a => ((bern_prod ROps (gen_purification_prob_h_given_v r x) h * bern_prod ROps (gen_purification_prob_a_given_v r x) a) "
+        "* bern_prod ROps (gen_purification_prob_v_given_ha r h a) y)%R) (all_bits (length (pd r))))) (all_bits (length (pc r)))) in "
+        "(exp (- gen_purification_effective_energy r s None) * K s s' = exp (- gen_purification_effective_energy r s' None) * K s' s)%R",
+        "intros nv nh na r H s s' Hs Hs'; cbv zeta; rewrite !tie_purification_effective_energy; "
+        "assert (E : forall x y, sum ROps (map (fun h => sum ROps (map (fun a => ((bern_prod ROps (gen_purification_prob_h_given_v r x) h * bern_prod ROps (gen_purification_prob_a_given_v r x) a) "
+        "* bern_prod ROps (gen_purification_prob_v_given_ha r h a) y)%R) (all_bits (length (pd r))))) (all_bits (length (pc r)))) = p_kernel ROps r x y) "
+        "by (intros x y; unfold p_kernel; f_equal; apply map_ext; intros h; f_equal; apply map_ext; intros a; unfold p_kernel_term; "
+        "rewrite tie_purification_prob_h_given_v, tie_purification_prob_a_given_v, tie_purification_prob_v_given_ha; reflexivity); "
+        "rewrite !E; exact (detailed_balance_purification nv nh na r H s s' Hs Hs')",
+        imports=["Gibbs", "GibbsT"])
